@@ -3,6 +3,8 @@
 (scratch copy: patch applies, the whole suite passes, the three feature builds compile) -> benign/<name>/{patch.diff,notes.md},
 then runs every quick check against the patched copy and prints what (if anything) fired."""
 import json, os, shutil, subprocess, sys, tempfile
+import os as _os
+_os.environ["RUST_BACKTRACE"] = "0"    # demos with allocator oracles must not see the backtrace machinery allocate
 HERE = os.path.dirname(os.path.dirname(os.path.abspath(__file__)))
 
 
